@@ -127,6 +127,14 @@ pub struct Cfg {
     pub ticket: bool,
     #[serde(default)]
     pub accept_early: bool,
+    /// 0-RTT: server transport configuration in force when the ticket of the first client was
+    /// issued (None = same as `server`); the remembered parameters are the bytes a real server
+    /// with that configuration presents
+    #[serde(default)]
+    pub ticket_server: Option<TCfg>,
+    /// edits (same syntax as `server_tp`) applied to the remembered parameters
+    #[serde(default)]
+    pub ticket_tp: Vec<Value>,
     #[serde(default = "d_true")]
     pub migration: bool,
     #[serde(default)]
@@ -724,6 +732,13 @@ impl World {
             });
             let mut cc = ToyClientConfig::new(seed ^ ((i as u64 + 1) << 32));
             cc.ch_size = cfg.ch_size;
+            // the session ticket is held by the first client only; the others connect afresh
+            if cfg.ticket && i == 0 {
+                cc.ticket = Some(toycrypto::Ticket {
+                    id: toycrypto::mix(seed ^ 0x71c4e7),
+                    params: remembered_params(&cfg),
+                });
+            }
             {
                 let tap = tp_client.clone();
                 // hostile parameters are presented by the first client only; the others are bystanders
@@ -781,6 +796,12 @@ impl World {
             "scid":c.server_cid_len,"ccid":c.client_cid_len,"maxdg":c.max_datagrams,
             "migration":c.migration,"incoming":c.incoming,
         }));
+        if let Some(t) = w.client_cfgs.first().and_then(|c| c.ticket.clone()) {
+            let mut v = tp_json(&t.params);
+            v["ev"] = json!("Ticket");
+            v["n"] = json!(1);
+            w.trace.push(v);
+        }
         w
     }
 
@@ -1741,6 +1762,35 @@ impl World {
         self.trace.push(json!({"ev":"End","t":t,"steps":self.steps,"eps":eps,"conns":lost,
             "panicked":self.panicked,"net":self.net.len()}));
     }
+}
+
+/// The transport parameters a server configured with `cfg.ticket_server` (default `cfg.server`)
+/// really presents: taken from a scratch handshake on a clean network, then edited by `ticket_tp`.
+pub fn remembered_params(cfg: &Cfg) -> Vec<u8> {
+    let mut c2 = cfg.clone();
+    c2.ticket = false;
+    if let Some(t) = &cfg.ticket_server {
+        c2.server = t.clone();
+    }
+    c2.clients = 1;
+    c2.fates_c2s.clear();
+    c2.fates_s2c.clear();
+    c2.loss_pct = 0;
+    c2.dup_pct = 0;
+    c2.jitter_us = 0;
+    c2.link_mtu = d_mtu();
+    c2.incoming = d_accept();
+    c2.client_tp.clear();
+    c2.server_tp.clear();
+    c2.ch_size = 0;
+    c2.epoch_shift_s = 0;
+    let mut w = World::new(c2, u64::MAX);
+    if let Some(c) = w.connect(1) {
+        w.after_input(1, c);
+    }
+    w.run_until(5_000_000, |w| !w.tp_server.lock().unwrap().is_empty());
+    let b = w.tp_server.lock().unwrap().last().cloned().unwrap_or_default();
+    tp_edit(&b, &cfg.ticket_tp)
 }
 
 /// Apply hostile edits to an encoded transport parameter list
